@@ -307,6 +307,22 @@ def make_writer(cfg, chdir, uuid="verif-uuid"):
                                       cfg.comp, cfg.cksum, cfg.is_complex, cfg.nsub, cfg.cont, False)
 
 
+def input_form(cfg, arr, which):
+    """the writer accepts complex data as ('r','i') struct arrays, as native complex arrays (float
+    types) and as interleaved real arrays of shape (N, 2*nsub); all must store the same bytes"""
+    if not cfg.is_complex or arr.shape[0] == 0:
+        return arr
+    which = which % 3
+    if which == 1:
+        out = np.zeros((arr.shape[0], 2 * cfg.nsub), dtype=cfg.realdtype)
+        out[:, 0::2] = arr["r"]
+        out[:, 1::2] = arr["i"]
+        return out
+    if which == 2 and cfg.kind == "f":
+        return (arr["r"].astype("f%d" % cfg.size) + 1j * arr["i"].astype("f%d" % cfg.size)).astype("c%d" % (2 * cfg.size))
+    return arr
+
+
 def run_impl(cfg, ops, chdir, hook=None):
     """execute ops on a real DigitalRFWriter; returns per-op reports [cls, ret, next, written, gap]"""
     os.makedirs(chdir, exist_ok=True)
@@ -318,9 +334,9 @@ def run_impl(cfg, ops, chdir, hook=None):
         before = hook("before", i, op, w) if hook else None
         try:
             if op[0] == "w":
-                ret = w.rf_write(enc(cfg, range(op[3], op[3] + op[2])), op[1])
+                ret = w.rf_write(input_form(cfg, enc(cfg, range(op[3], op[3] + op[2])), op[3]), op[1])
             elif op[0] == "b":
-                ret = w.rf_write_blocks(enc(cfg, range(op[2], op[2] + op[1])),
+                ret = w.rf_write_blocks(input_form(cfg, enc(cfg, range(op[2], op[2] + op[1])), op[2]),
                                         np.array(op[3], dtype=np.uint64), np.array(op[4], dtype=np.uint64))
             elif op[0] == "c":
                 w.close()
